@@ -3,13 +3,15 @@ From VLS Require Export Base.Eqb Model.NodeOps.
 
 Definition kcode (k : skind) : N := match k with SNone => 0 | SStub => 1 | SReady => 2 | SForgot => 3 end.
 Definition None_ := SNone.
+(** an absent issued invoice as the harness prints it (its [None] stands for the slot kind) *)
+Definition No : option N := None.
 
-Definition nobs : Type := bool * (list N * N * list bool * N).
-Definition nobserve (s : nnode) : list N * N * list bool * N :=
+Definition nobs : Type := bool * (list N * N * list bool * N * list (option N)).
+Definition nobserve (s : nnode) : list N * N * list bool * N * list (option N) :=
   (map (fun d => kcode (slots (nmem s) d)) [1; 2; 3; 4], hwm (nmem s),
-   map (allow (nmem s)) [0; 1; 2], ninv (nmem s)).
+   map (allow (nmem s)) [0; 1; 2], ninv (nmem s), map (iss (nmem s)) ISS_HASHES).
 
-Definition nodeops_case : Type := list nop * list (bool * (list skind * N * list bool * N)).
+Definition nodeops_case : Type := list nop * list (bool * (list skind * N * list bool * N * list (option N))).
 
 Fixpoint ntrace (s : nnode) (ops : list nop) : list nobs :=
   match ops with
@@ -17,8 +19,8 @@ Fixpoint ntrace (s : nnode) (ops : list nop) : list nobs :=
   | o :: r => let '(s', ok) := nstep s o in (ok, nobserve s') :: ntrace s' r
   end.
 
-Definition recode (x : bool * (list skind * N * list bool * N)) : nobs :=
-  let '(ok, (ks, h, al, n)) := x in (ok, (map kcode ks, h, al, n)).
+Definition recode (x : bool * (list skind * N * list bool * N * list (option N))) : nobs :=
+  let '(ok, (ks, h, al, n, il)) := x in (ok, (map kcode ks, h, al, n, il)).
 
 Definition nodeops_model (c : nodeops_case) : list nobs := ntrace ninit (fst c).
 Definition check_nodeops (c : nodeops_case) : bool := beq (nodeops_model c) (map recode (snd c)).
